@@ -25,7 +25,13 @@ pub fn attr_args(a: &Attr) -> String {
         None => default_order.iter().map(|s| s.to_string()).collect(),
     };
     let cb_named = order.iter().any(|x| x == "callback");
-    if let (Some(cb), false) = (&a.cb, cb_named) {
+    let cb_text: Option<String> = match (&a.cb, a.inc, &a.cbk) {
+        (Some(cb), _, _) => Some(cb.clone()),
+        (None, Some(n), _) => Some(format!("|lex| {{ lex.extras += {n}; }}")),
+        (None, None, Some(k)) => Some(format!("crate::cb::{k}")),
+        _ => None,
+    };
+    if let (Some(cb), false) = (&cb_text, cb_named) {
         parts.push(cb.clone());
     }
     for name in &order {
@@ -46,7 +52,7 @@ pub fn attr_args(a: &Attr) -> String {
                 }
             }
             "callback" => {
-                if let Some(cb) = &a.cb {
+                if let Some(cb) = &cb_text {
                     parts.push(format!("callback = {cb}"));
                 }
             }
